@@ -96,9 +96,15 @@ def parseMetric (s : String) : Option (Metric Float) :=
 
 def parseBound (s : String) : Option Int := if s == "z" then none else s.toInt?
 
+def parseSub (s : String) : Option (SubAgg Float) :=
+  match s.splitOn ":" with
+  | ["card", f] => some (.card f)
+  | ["quant", f] => some (.quant f)
+  | _ => (parseMetric s).map .metric
+
 def parseAgg (s : String) : Option (Agg Float) :=
   let (head, subs) := match s.splitOn ">" with
-    | [h, t] => (h, (t.splitOn "+").filterMap parseMetric)
+    | [h, t] => (h, (t.splitOn "+").filterMap parseSub)
     | _ => (s, [])
   match head.splitOn ":" with
   | ["card", f] => some (.card f)
@@ -153,17 +159,18 @@ def cmpKeys : List Bool → List String → List String → Ordering
 
 abbrev SK := List String     -- a sketch is modelled by the values inserted, in order
 abbrev AR := ARes Float SK SK
+abbrev SR := SRes Float SK SK
+abbrev SS := SSt Float SK SK
 
 /-- the sort used by `Finish`: Go's insertion sort for ≤ 12 buckets; for more, a sort by descending count whose
 tie-break follows `rank` (the order the implementation returned — `sort.Sort` is modelled, not verified) -/
-def termSort (cnt : List (MSt Float) → Nat) (rank : List Term) (l : List (Term × List (MSt Float))) :
-    List (Term × List (MSt Float)) :=
+def termSort (cnt : List SS → Nat) (rank : List Term) (l : List (Term × List SS)) : List (Term × List SS) :=
   if l.length ≤ 12 then isortDesc cnt l else
   let pos (t : Term) : Nat := (rank.findIdx? (· == t)).getD rank.length
   isortDesc cnt (l.mergeSort fun a b => pos a.1 ≤ pos b.1)
 
-def cnt0 : List (MSt Float) → Nat
-  | .one v :: _ => v.toUInt64.toNat
+def cnt0 : List SS → Nat
+  | .m (.one v) :: _ => v.toUInt64.toNat
   | _ => 0
 
 def envOf (rank : List Term) : Env Float SK SK :=
@@ -183,42 +190,105 @@ def specAgg (rank : List Term) (a : Agg Float) (ms : List (DocVals Float)) : AR 
     let names := (allVals (txtSrc f) ms).eraseDups          -- first-seen order
     let table := names.map fun t => (t, having (txtSrc f) t ms)
     -- the same sort as the model, on (name, count) pairs
-    let sorted := env.sort (table.map fun b => (b.1, [MSt.one (Float.ofNat b.2.length)]))
+    let sorted := env.sort (table.map fun b => (b.1, [SSt.m (MSt.one (Float.ofNat b.2.length))]))
     let kept := (sorted.take size).filterMap fun b => table.find? (·.1 == b.1)
     .t { buckets := kept.map fun b => (b.1, b.2.length, specSubs env subs b.2),
          other := (ms.length : Int) - ((kept.map fun b => b.2.length).sum : Nat) }
   | .ranges f rs subs => .r (rs.map fun r => specSubs env subs (occR (numSrc f) inNumRange r ms))
   | .dranges f rs subs => .r (rs.map fun r => specSubs env subs (occR (dateSrc f) inDateRange r ms))
 
+/-- the nested results every bucket must have, by direct definition over the matches that belong to it:
+terms bucket `name` = the matches having that value; range bucket `i` = the matches once per value inside range `i` -/
+def bucketTruth (a : Agg Float) (ms : List (DocVals Float)) (name : String) (i : Nat) : List SR :=
+  let env := envOf []
+  match a with
+  | .terms f _ subs => specSubs env subs (having (txtSrc f) name ms)
+  | .ranges f rs subs => match rs[i]? with
+      | some r => specSubs env subs (occR (numSrc f) inNumRange r ms)
+      | none => []
+  | .dranges f rs subs => match rs[i]? with
+      | some r => specSubs env subs (occR (dateSrc f) inDateRange r ms)
+      | none => []
+  | _ => []
+
+def subsOf : Agg Float → List (SubAgg Float)
+  | .terms _ _ subs | .ranges _ _ subs | .dranges _ _ subs => subs
+  | _ => []
+
 /-! ### rendering (canonical form shared with the harness) -/
 
-def showSubs (vs : List Float) : String := "{" ++ ",".intercalate (vs.map fbits) ++ "}"
+/-- a sketch as the harness prints it: `<tag><implementation>/<the same Go sketch type fed directly>/<number of values fed directly>` -/
+structure SkE where
+  tag : String := "?:"
+  impl : String := "?"
+  direct : String := "?"
+  n : String := "?"
 
-/-- nested results: first the count (printed as an integer like `Bucket.Count()`), then the metrics -/
-def showBucket (name : String) (vs : List Float) : String :=
-  match vs with
-  | c :: rest => s!"{name}:{c.toUInt64.toNat}{showSubs rest}"
-  | [] => s!"{name}:0" ++ "{}"
+def parseSkE (s : String) : SkE :=
+  match (s.drop 2).toString.splitOn "/" with
+  | [i, d, n] => { tag := (s.take 2).toString, impl := i, direct := d, n := n }
+  | _ => { tag := (s.take 2).toString }
 
-/-- `implPart` is the implementation's rendering of the same aggregation (needed for the sketches: the
-model of a sketch is the list of values fed; the numbers come from the Go sketch fed directly). -/
-def showARes (a : Agg Float) (r : AR) (trueFed : List String) (implPart : String) : String :=
+/-- the model of a sketch is the list of values fed to it. Fed exactly the bucket's values it IS the directly fed
+sketch (HyperLogLog only sees the set of values); fed anything else the model cannot compute the numbers and
+echoes the implementation's (the comparison with the specification decides). -/
+def sketchEntry (isCard : Bool) (fed trueFed : List String) (e : SkE) : String :=
+  let same := if isCard then fed.eraseDups == trueFed.eraseDups else fed == trueFed
+  s!"{e.tag}{if same then e.direct else e.impl}/{e.direct}/{trueFed.length}"
+
+def showSR (r trueR : SR) (implE : String) : String :=
+  match r with
+  | .m v => fbits v
+  | .card fed => sketchEntry true fed (match trueR with | .card t => t | _ => fed) (parseSkE implE)
+  | .quant fed => sketchEntry false fed (match trueR with | .quant t => t | _ => fed) (parseSkE implE)
+
+/-- the buckets of the implementation's rendering of a terms / range aggregation: (name, entries between the braces) -/
+def implBuckets (part : String) : List (String × List String) :=
+  let inner := ("[".intercalate ((part.splitOn "[").drop 1)).dropEnd 1 |>.toString
+  if inner.isEmpty then [] else
+  (inner.splitOn "|").map fun b =>
+    let name := ((b.splitOn ":").head?).getD ""
+    let body := match b.splitOn "{" with
+      | [_, r] => (r.dropEnd 1).toString
+      | _ => ""
+    (name, body.splitOn ",")
+
+def showBucket (name : String) (cnt : Nat) (vs trueVs : List SR) (implEntries : List String) : String :=
+  let dflt : SR := .m 0
+  let es := (vs.drop 1).zipIdx.map fun (v, j) => showSR v ((trueVs.drop 1).getD j dflt) (implEntries.getD j "")
+  s!"{name}:{cnt}" ++ "{" ++ ",".intercalate es ++ "}"
+
+def cntOfRes : List SR → Nat
+  | .m c :: _ => c.toUInt64.toNat
+  | _ => 0
+
+/-- `implPart` is the implementation's rendering of the same aggregation (needed for the sketches). -/
+def showARes (a : Agg Float) (r : AR) (ms : List (DocVals Float)) (implPart : String) : String :=
+  let ib := implBuckets implPart
   match r with
   | .m v => "m:" ++ fbits v
-  | .t res => s!"t:other={res.other},[" ++ "|".intercalate (res.buckets.map fun b => s!"{b.1}:{b.2.1}{showSubs (b.2.2.drop 1)}") ++ "]"
-  | .r bs => "r:[" ++ "|".intercalate (bs.zipIdx.map fun (vs, i) => showBucket s!"r{i}" vs) ++ "]"
-  | .card fed | .quant fed =>
-    let tag := implPart.take 2
-    let direct := match (implPart.drop 2).toString.splitOn "/" with | [_, d] => d | _ => "?"
-    let implV := match (implPart.drop 2).toString.splitOn "/" with | [i, _] => i | _ => "?"
-    match a with
-    | .card _ =>
-      -- HyperLogLog only sees the set of inserted values
-      if fed.eraseDups == trueFed.eraseDups then s!"{tag}{direct}/{direct}" else s!"{tag}{implV}/{direct}"
-    | _ =>
-      -- a t-digest fed exactly the documents' values in order is the directly fed one; fed anything else
-      -- the model cannot compute the numbers (it echoes them; the spec comparison decides)
-      if fed == trueFed then s!"{tag}{direct}/{direct}" else s!"{tag}{implV}/{direct}"
+  | .t res => s!"t:other={res.other},[" ++ "|".intercalate (res.buckets.zipIdx.map fun (b, i) =>
+        showBucket b.1 b.2.1 b.2.2 (bucketTruth a ms b.1 i) ((ib.lookup b.1).getD [])) ++ "]"
+  | .r bs => "r:[" ++ "|".intercalate (bs.zipIdx.map fun (vs, i) =>
+        showBucket s!"r{i}" (cntOfRes vs) vs (bucketTruth a ms "" i) ((ib.lookup s!"r{i}").getD [])) ++ "]"
+  | .card fed => sketchEntry true fed (match a with | .card f => allVals (txtSrc f) ms | _ => fed) (parseSkE implPart)
+  | .quant fed => sketchEntry false fed (match a with | .quant f => (allVals (numSrc f) ms).map fbits | _ => fed) (parseSkE implPart)
+
+/-- every sketch of one aggregation as the implementation printed it: (path, is a t-digest, the values it must have been fed, entry) -/
+def sketchesOf (a : Agg Float) (i : Nat) (ms : List (DocVals Float)) (implPart : String) : List (String × Bool × List String × SkE) :=
+  match a with
+  | .card f => [(s!"a{i}", false, allVals (txtSrc f) ms, parseSkE implPart)]
+  | .quant f => [(s!"a{i}", true, (allVals (numSrc f) ms).map fbits, parseSkE implPart)]
+  | .terms .. | .ranges .. | .dranges .. =>
+    let subs := subsOf a
+    (implBuckets implPart).zipIdx.flatMap fun ((name, entries), bi) =>
+      let truth := (bucketTruth a ms name bi).drop 1
+      subs.zipIdx.filterMap fun (x, j) =>
+        match x, truth.getD j (.m 0) with
+        | .card _, .card t => some (s!"a{i}/{name}/s{j}", false, t, parseSkE (entries.getD j ""))
+        | .quant _, .quant t => some (s!"a{i}/{name}/s{j}", true, t, parseSkE (entries.getD j ""))
+        | _, _ => none
+  | _ => []
 
 /-! ### the step -/
 
@@ -264,10 +334,8 @@ def ulps (a b : Float) : Nat := (sortKeyOf a - sortKeyOf b).natAbs
 /-- quantiles: every value within [min, max] of the matched values and non-decreasing in the rank.
 0 = holds; 1 = violated, but by at most 4 units in the last place everywhere (rounding of the interpolation
 inside the sketch); 2 = violated by more. -/
-def quantClass (implPart : String) (vals : List Float) : Nat :=
-  let qs := match (implPart.drop 2).toString.splitOn "/" with
-    | [i, _] => (i.splitOn ",").map fun s => if s == "nan" then (0.0 / 0.0 : Float) else ofHex s
-    | _ => []
+def quantClass (ranks : String) (vals : List Float) : Nat :=
+  let qs := (ranks.splitOn "_").map fun s => if s == "nan" then (0.0 / 0.0 : Float) else ofHex s
   if vals.isEmpty then 0 else
   let lo := vals.foldl (fun a b => if b < a then b else a) posInf
   let hi := vals.foldl (fun a b => if b > a then b else a) negInf
@@ -316,30 +384,31 @@ def reqStep (st : St) (ws : List String) (impl : String) : St × String × Strin
         ++ (if r.exits.evicted > 0 then ["evict"] else []) ++ (if cfg.size + cfg.skip > 10 then ["heap-store"] else []))
   -- (b) the specification on the documents' own values
   let trueMs : List (DocVals Float) := hits.map (·.vals)
-  let trueFed (a : Agg Float) : List String := match specAgg [] a trueMs with | .card l | .quant l => l | _ => []
-  let modelParts := (aggs.zip results).zipIdx.map fun ((a, r), i) => s!"a{i}=" ++ showARes a r (trueFed a) (partOf i)
+  let modelParts := (aggs.zip results).zipIdx.map fun ((a, r), i) => s!"a{i}=" ++ showARes a r trueMs (partOf i)
   let specParts := aggs.zipIdx.map fun (a, i) =>
-    s!"a{i}=" ++ showARes a (specAgg (implRank (partOf i)) a trueMs) (trueFed a) (partOf i)
+    s!"a{i}=" ++ showARes a (specAgg (implRank (partOf i)) a trueMs) trueMs (partOf i)
   let implParts := aggs.zipIdx.map fun (_, i) => s!"a{i}=" ++ partOf i
   let modelStr := "hits=" ++ (if hitIds.isEmpty then "-" else ",".intercalate hitIds) ++ " aggs=" ++ ";".intercalate modelParts
   -- diagnosis of the first aggregation on which the implementation differs from direct counting
   let cnt (f : Field) := needed.count f
   let diag : Option String := (((aggs.zip specParts).zip implParts).zipIdx).findSome? fun (((a, sp), ip), i) =>
-    let sketchBad := match a with
-      | .card _ | .quant _ =>
-        let p := (partOf i).drop 2 |>.toString
-        match p.splitOn "/" with | [x, y] => x != y | _ => true
-      | _ => false
-    if sp == ip && !sketchBad then
-      (match a with
-       | .quant f => match quantClass (partOf i) (allVals (numSrc f) trueMs) with
-          | 0 => none
-          | 1 => some "quantile-bounds-off-by-rounding"
-          | _ => some "quantile-out-of-range-or-not-monotone"
-       | _ => none)
+    let sks := sketchesOf a i trueMs (partOf i)
+    if sp == ip then
+      -- every sketch equals the directly fed one; the t-digest's own promises, per sketch, on that sketch's values
+      sks.findSome? fun (path, isQ, truth, e) =>
+        if !isQ then none else
+        match quantClass e.impl (truth.map ofHex) with
+        | 0 => none
+        | 1 => some "quantile-bounds-off-by-rounding"
+        | _ => some s!"quantile-out-of-range-or-not-monotone:{path}"
     else if a.reads.any (fun f => cnt f ≥ 2) then some "field-loaded-twice"
     else if a.reads.any (fun f => cnt f == 0) then some "nested-field-not-loaded"
-    else some (aggKind a)
+    else match sks.findSome? (fun (path, _, truth, e) =>
+        if e.impl != e.direct then some s!"sketch-not-fed-exactly:{path}"
+        else if e.n != toString truth.length then some s!"assumption-direct-sketch-fed-other-values:{path}"
+        else none) with
+      | some d => some d
+      | none => some (aggKind a)
   let key := q ++ "|" ++ aStr
   let implAggs := ";".intercalate implParts
   -- paging independence: among the requests whose fields are each loaded exactly once (the others are judged
@@ -363,7 +432,11 @@ def reqStep (st : St) (ws : List String) (impl : String) : St × String × Strin
         acc ++ [if distinct ≤ 12 then "terms-le12" else "terms-gt12"] ++ (if size < distinct then ["terms-trimmed"] else [])
           ++ (if res.other < 0 then ["terms-other-negative"] else []) ++ (if res.other > 0 then ["terms-other-positive"] else [])
       | _, _ => acc) []
-  let brs := brs ++ loadBr ++ termBr ++ (if hits.isEmpty then ["no-match"] else [])
+  let nested := (aggs.zipIdx.flatMap fun (a, i) => sketchesOf a i trueMs (partOf i)).filter fun (path, _, _, _) => (path.splitOn "/").length > 1
+  let sketchBr := (if nested.any (fun (_, isQ, _, _) => isQ) then ["nested-quantiles"] else [])
+    ++ (if nested.any (fun (_, isQ, _, _) => !isQ) then ["nested-cardinality"] else [])
+    ++ (if (nested.filter fun (_, _, truth, _) => !truth.isEmpty).length ≥ 2 then ["nested-sketch-several-buckets"] else [])
+  let brs := brs ++ loadBr ++ termBr ++ sketchBr ++ (if hits.isEmpty then ["no-match"] else [])
     ++ (if compared then ["paging-compared"] else [])
   ({ st with memo := memo }, modelStr, verdict ++ " br=" ++ ",".intercalate brs.eraseDups)
 
